@@ -11,6 +11,8 @@ Decided:
          sort key (chromosome, reference stop)
   C20.4  every call reaches the clustering and every cluster reaches the file: the lists handed to cluster_indels are the
          finders' lists, only sorted; the lines written are the concatenation of both clustered lists, only sorted
+  C20.5  the coordinates of a record are those of the two flanking aligned labels (breakage pair and the pair after it, label
+         number - 1 as index, maps selected by the alignment's ids)
 Declined: interval cover for arbitrary unsorted input, the averaging of Length.
 """
 from __future__ import annotations
@@ -46,6 +48,92 @@ def _only_sorted(t: Term, leaf_pred) -> Optional[Term]:
             cur = cur[2][0]
             continue
         return cur if leaf_pred(cur) else None
+
+
+def _flanking_labels(ck, construct, w, rec, ix):
+    """C20.5: the four coordinates are positions of the labels named by the breakage pair B and the pair that follows it, N =
+    alignedPairs[index(B) + 1]: <maps>[<id of the alignment>].positions[<pair>.<axis>.siteId - 1]"""
+    ck.clause("C20.5", "the record's coordinates are those of the two flanking aligned labels: the breakage pair and the next pair, "
+                       "looked up by label number - 1 in the map with the alignment's id")
+
+    def parse(t, axis):
+        # idx(attr(idx(DICT, ID), 'positions'), PAIR.axis.siteId - 1)
+        if not (t[0] == "idx" and t[1][0] == "attr" and t[1][2] == "positions" and t[1][1][0] == "idx"):
+            return None
+        d, idt = t[1][1][1], t[1][1][2]
+        index = t[2]
+        pairs = [x for x in T.subterms(index) if x[0] == "attr" and x[2] == "siteId" and x[1][0] == "attr" and x[1][2] == axis]
+        if len(pairs) != 1:
+            return None
+        pair = pairs[0][1][1]
+        off_ok = index == T.p_sub(pairs[0], C(1))
+        return d, idt, pair, off_ok, index
+    slots = {"RefStart": "reference", "RefStop": "reference", "QueryStart": "query", "QueryStop": "query"}
+    parsed = {}
+    for name, axis in slots.items():
+        r = parse(rec[ix[name]], axis)
+        if r is None:
+            raise AnalysisError(f"{w}: slot {name} is not <maps>[id].positions[<pair>.{axis}.siteId - 1]: {T.show(rec[ix[name]])[:160]}")
+        parsed[name] = r
+    for name, (d, idt, pair, off_ok, index) in parsed.items():
+        ck.judge(off_ok, "C20.5", f"{construct}:{name}:label-number", w,
+                 "label numbers are 1-based: the coordinate of label k is positions[k - 1]", found=T.show(index)[:120],
+                 required="<pair>.<axis>.siteId - 1")
+    B, N = parsed["RefStart"][2], parsed["RefStop"][2]
+    ck.judge(parsed["QueryStart"][2] == B and parsed["QueryStop"][2] == N, "C20.5", construct + ":same-pairs", w,
+             "reference and query coordinates of one end come from the same aligned pair",
+             found=f"start: {T.show(B)[-60:]} / {T.show(parsed['QueryStart'][2])[-60:]}; stop: {T.show(N)[-60:]} / {T.show(parsed['QueryStop'][2])[-60:]}")
+    # N = alignedPairs[index of B + 1]
+    ok_next = False
+    if N[0] == "idx" and N[1][0] == "attr" and N[1][2] == "alignedPairs":
+        aln = N[1][1]
+        nidx = N[2]
+        if B[0] == "idx" and B[1] == N[1]:                     # B = alignment.alignedPairs[i]
+            ok_next = nidx == T.p_add(B[2], C(1))
+        elif B[0] == "idx" and B[2] == C(1):                   # B = breakage[1], its index is breakage[0]
+            ok_next = nidx == T.p_add(T.mk_idx(B[1], C(0)), C(1))
+        ids_ok = parsed["RefStart"][1] == T.mk_attr(aln, "referenceId") and parsed["RefStop"][1] == T.mk_attr(aln, "referenceId") and \
+            parsed["QueryStart"][1] == T.mk_attr(aln, "queryId") and parsed["QueryStop"][1] == T.mk_attr(aln, "queryId")
+        ck.judge(ids_ok, "C20.5", construct + ":maps", w, "coordinates are looked up in the maps with the alignment's own reference / query id",
+                 found="; ".join(T.show(parsed[k][1])[-50:] for k in slots))
+        ck.judge(parsed["RefStart"][0] == parsed["RefStop"][0] and parsed["QueryStart"][0] == parsed["QueryStop"][0]
+                 and parsed["RefStart"][0] != parsed["QueryStart"][0], "C20.5", construct + ":dictionaries", w,
+                 "reference coordinates come from the reference maps, query coordinates from the query maps",
+                 found="; ".join(T.show(parsed[k][0]) for k in slots))
+    ck.judge(ok_next, "C20.5", construct + ":next-pair", w, "the second flanking label belongs to the aligned pair right after the breakage pair",
+             found=f"breakage pair {T.show(B)[-80:]}, next {T.show(N)[-100:]}", required="alignedPairs[<index of the breakage pair> + 1]")
+
+
+def _coverage(ck, cluster, main, src):
+    from ..norm import norm_in
+    ctx = ck.ctx
+    it = norm_in(ctx, cluster, main.iter)
+    S = V(src)
+    w = where(cluster, main)
+    seeds = []          # what is put into the cluster list before the loop
+    for n in ast.walk(cluster.node):
+        if isinstance(n, ast.Assign) and isinstance(n.value, ast.List) and n.value.elts and n.lineno < main.lineno:
+            for el in n.value.elts:
+                seeds.append(el)
+    env = {}
+    for n in ast.walk(cluster.node):
+        if isinstance(n, ast.Assign) and len(n.targets) == 1 and isinstance(n.targets[0], ast.Name) and n.lineno < main.lineno \
+                and not isinstance(n.value, ast.List):
+            env[n.targets[0].id] = norm_in(ctx, cluster, n.value, env=dict(env))
+    seed_terms = [norm_in(ctx, cluster, el, env=dict(env)) for el in seeds]
+    first_plus_one = ("concat", (T.mk_idx(S, C(0)), ("list", (C(1),))))
+    if it == S:
+        ck.judge(not seed_terms, "C20.1", "cluster_indels:coverage", w, "the loop visits every call and nothing is put into the "
+                 "cluster list beforehand", found=f"{len(seed_terms)} element(s) seeded before a loop over the whole list")
+    elif it == ("slice", S, C(1), T.NONE, T.NONE):
+        ok = len(seed_terms) == 1 and seed_terms[0] in (first_plus_one, T.p_add(T.mk_idx(S, C(0)), ("list", (C(1),))))
+        ck.judge(ok, "C20.1", "cluster_indels:coverage", w,
+                 "the first call opens the first cluster with count 1 and the loop visits all the others (list[1:])",
+                 found="seeded: " + "; ".join(T.show(t)[:80] for t in seed_terms) + f" | loop over {T.show(it)}",
+                 required=f"[{src}[0] + [1]] and a loop over {src}[1:]")
+    else:
+        ck.violation("C20.1", "cluster_indels:coverage", w, "the clustering loop does not visit every call exactly once",
+                     found=f"loop over {T.show(it)[:100]}", required=f"{src}  or  {src}[1:] after seeding with {src}[0]")
 
 
 def _writer_conserves(ck, writer, cluster):
@@ -164,6 +252,7 @@ def run(ck):
             ck.judge(roles_ok, "C20.3", construct + ":roles", w,
                      "Ref*/Query* slots are looked up through the pair's reference/query label",
                      found=", ".join(T.show(x)[:80] for x in rec[2:7]))
+            _flanking_labels(ck, construct, w, rec, ix)
             ids_ok = has_attr(rec[ix["Chromosome"]], "referenceId") and \
                 (has_attr(rec[ix["QueryId"]], "queryId") or rec[ix["QueryId"]] == V("q_id"))
             ck.judge(ids_ok, "C20.3", construct + ":ids", w, "Chromosome slot = referenceId, QueryId slot = queryId",
@@ -224,6 +313,9 @@ def run(ck):
     if main is None:
         raise AnalysisError(f"{cluster.where}: loop over the input calls not found")
     line = V(main.target.id)
+    # ---- every call is seen once: either the loop runs over the whole list (nothing put in beforehand), or the first call
+    # opens the first cluster (count 1) and the loop runs over list[1:]
+    _coverage(ck, cluster, main, src)
     # the cluster list: the list that is returned
     rets = [n for n in ast.walk(cluster.node) if isinstance(n, ast.Return) and isinstance(n.value, ast.Name)]
     if not rets:
